@@ -1,4 +1,5 @@
-SPECIFICATION Spec
+INIT WInit
+NEXT WNext
 CONSTANTS
   Themes = {"foo", "pango", "sep", "meta1", "meta2", "la"}
   ML = 2
@@ -6,6 +7,7 @@ CONSTANTS
   EML = 0
   EMW = 0
   LaML = 2
+  Extras = FALSE
   Variant = "asis"
   Gran = "case"
   Cases <- MC_None
